@@ -92,6 +92,19 @@ def cases(tier, seed):
                     ops += pre + ["rt.%s 1 %s %s" % (rnd.choice(["set", "set", "setu"]), ty, hexv(ty, v)), "rt.get 1"]
                 cs.append(Case("t%d" % n, ops, ("typed", ty, "interference")))
                 n += 1
+        # the table is initialised a second time after the register was moved inside its area (description edited in
+        # place): sets and gets use the new place
+        for cname in ("trivial", "range"):
+            chk = cks[cname]
+            for be in (0, 1):
+                def line(op, at):
+                    return "rt.%s %d 16:12:rw:M u16:16:1111:t|%s:%d:%s:%s|u16:%d:2222:t" % (op, be, ty, at, default_for(ty, chk), chk, at + SIZE[ty] + 1)
+                ops = [line("table", 18), "rt.init", "rt.set 1 %s %s" % (ty, hexv(ty, values(ty, rnd, 1)[0])), line("edit", 19), "rt.init", "rt.get 1"]
+                for v in values(ty, rnd, 2)[::4]:
+                    ops += ["rt.%s 1 %s %s" % (rnd.choice(["set", "setu"]), ty, hexv(ty, v)), "rt.get 1", "rt.bread 16 12"]
+                ops += [line("edit", 17), "rt.init", "rt.set 1 %s %s" % (ty, default_for(ty, chk)), "rt.get 1", "rt.bread 16 12"]
+                cs.append(Case("t%d" % n, ops, ("typed", ty, "re-initialised")))
+                n += 1
         # areas that cannot be written / uninitialised table
         for akind in ("nowrite", "ro-flag"):
             ops = [table_line(0, akind, ty, "t"), "rt.set 1 %s %s" % (ty, hexv(ty, 5)), "rt.get 1", "rt.init",
